@@ -352,9 +352,24 @@ func runJSONFormatters(rc *RunCtx) {
 			}
 			var out *el.Event
 			var err error
+			// what these nodes do does not depend on the caller's context: an event that is in a pipeline
+			// when its Send is cancelled (or its deadline passes) is formatted and filtered like any other
+			pctx := context.Background()
+			switch tp.Choose(6, "context") {
+			case 0:
+				c, cancel := context.WithCancel(pctx)
+				cancel()
+				pctx = c
+				simrt.Probe("json.context-done")
+			case 1:
+				c, cancel := context.WithDeadline(pctx, time.Unix(1, 0))
+				defer cancel()
+				pctx = c
+				simrt.Probe("json.context-done")
+			}
 			switch which {
 			case 0:
-				out, err = (&el.JSONFormatter{}).Process(context.Background(), e)
+				out, err = (&el.JSONFormatter{}).Process(pctx, e)
 			case 1:
 				ff := &el.JSONFormatterFilter{}
 				switch predMode {
@@ -365,7 +380,7 @@ func runJSONFormatters(rc *RunCtx) {
 				case 3:
 					ff.Predicate = func(interface{}) (bool, error) { touch(); return predKeep, predErr }
 				}
-				out, err = ff.Process(context.Background(), e)
+				out, err = ff.Process(pctx, e)
 			default:
 				// plain Filter: forwards exactly when the predicate returns true
 				f := &el.Filter{}
@@ -377,7 +392,7 @@ func runJSONFormatters(rc *RunCtx) {
 				case 3:
 					f.Predicate = func(*el.Event) (bool, error) { touch(); return predKeep, predErr }
 				}
-				out, err = f.Process(context.Background(), e)
+				out, err = f.Process(pctx, e)
 				switch {
 				case predMode == 3 && (err == nil || out != nil):
 					rc.Failf("C14.filter-predicate-error", "", "Filter: predicate error must be returned, got (%v, %v)", out, err)
@@ -770,7 +785,8 @@ func runCloudEvents(rc *RunCtx) {
 	hasSigner := signerMode != 0
 	lateSigner := signerMode == 0 && tp.Choose(2, "late-signer") == 0 // installed by Rotate after some events
 	if hasSigner || lateSigner {
-		ff.SignEventTypes = []string{"signed-type", "other-signed"}
+		// (listed names are names, not patterns: "audit-*" lists the type called "audit-*" and nothing else)
+		ff.SignEventTypes = []string{"signed-type", "other-signed", "audit-*", "?ther"}
 	}
 	if signerMode != 0 {
 		ff.Signer = mkSigner(key)
@@ -816,7 +832,7 @@ func runCloudEvents(rc *RunCtx) {
 		}()
 		for i := 0; i < n; i++ {
 			tp.Mark()
-			typ := []string{"signed-type", "plain-type", "other-signed", "signed-type2"}[tp.Choose(4, "type")]
+			typ := []string{"signed-type", "plain-type", "other-signed", "signed-type2", "audit-login", "audit-*", "other"}[tp.Choose(7, "type")]
 			if tp.Choose(16, "empty-type") == 0 {
 				typ = "" // a cloudevent without a type cannot be conformant: the event has to be rejected
 			}
@@ -917,7 +933,7 @@ func runCloudEvents(rc *RunCtx) {
 				}
 				continue
 			}
-			mustSign := hasSigner && (typ == "signed-type" || typ == "other-signed")
+			mustSign := hasSigner && (typ == "signed-type" || typ == "other-signed" || typ == "audit-*")
 			signerFailed := mustSign && failAt[signBefore+1]
 			if signerFailed {
 				simrt.Probe("ce.signer-failed")
